@@ -52,6 +52,14 @@ CLAIMED = {
          "integrand of any LeProHQ-based closure is exactly 0 beyond the partonic threshold, hence on the whole range when x is below; eta > 0 above; the CC convolution point is "
          "x(1+m2/Q2) and a point >= 1 gives exactly 0. Real FFNS runs check the operator rows across the thresholds.",
          "Trusted: Coq kernel+vm_compute; harness; LeProHQ is an arbitrary oracle in the model; the mass handed to each channel is part of the Combiner model (compared by corr/wlayer).", "4 C09"),
+ "C10": ("Coq theorems (field over an abstract field; Coquelicot change of variables for the integrals) on a hand-written model of esf/tmc.py against a hand-transcribed "
+         "specification of the published formulas; integration kernels regenerated from the source by the translator; model tied by differential correspondence on the real ESFTMC_* classes",
+         "Proof: F2 and FL (exact, APFEL, approximate) and approximate F3 are the published formulas coefficient by coefficient for every x, M2, Q2, r, xi; the four Mellin "
+         "convolutions the code takes are the published integrals h2, g2, int F/u, k2 for every continuous structure function; massless target: the corrected structure function is the "
+         "uncorrected one, all integrals with coefficient 0; xi below the grid is rejected. PARTIAL: exact/APFEL F3 has the published prefactors but the wrong kernel, g1 is xi/x times the "
+         "published formula (both proved, both refuted as full statements, both replayed on the real code on every run and recorded as known findings). Real TMC runs are compared "
+         "with the formula applied to TMC=0 output on two grids per process.",
+         "Trusted: Coq kernel+vm_compute; harness; translator for the four kernels; the transcription of the published formulas into tmc_spec; eko basis functions and scipy.quad in the patrol.", "4 C10"),
  "C12": ("Coq theorems (field) on the functional apply_isospin model + regenerated named-target table compared with the documented table by vm_compute; "
          "model tied to the code by differential correspondence",
          "Proof: for every parton map, PDF vector and Z, A<>0, contracting the rotated map equals contracting the proton map with the mixed u/d PDFs; neutron = swap, "
